@@ -427,6 +427,10 @@ def repeat(x, repeats, /, *, axis=0):
     shape = x.shape[:axis] + (x.shape[axis] * repeats,) + x.shape[axis + 1 :]
     chunks = normalize_chunks(x.chunksize, shape=shape, dtype=x.dtype)
 
+    if repeats == 0:
+        # nothing is repeated: the result is empty along the axis
+        return empty(shape, dtype=x.dtype, chunks=chunks, spec=x.spec)
+
     # This implementation calls nxp.repeat in every output block, which is 'repeats' times
     # more than necessary than if we had a primitive op that could write multiple blocks.
 
